@@ -431,6 +431,24 @@ def r4_first(F, res, rid):
 def r5_closure(F, res, rid):
     """LR(1) closure lookahead rule."""
     f = F.one(r"LRState::<'g>::closure$")
+    # every pass looks at EVERY item of the state (an item that is already there can have got new lookaheads, which its
+    # closure items must inherit): no skip / slice / take on the way from self.items to the loop
+    tb0 = TermBuilder(f, F)
+    srcs = []
+    for b0, t0 in f.calls():
+        if mir.call_matches(callee(t0), "Iterator::next") and t0["args"]:
+            s0 = tb0.operand(t0["args"][0])
+            if has_field(s0, "items", "LRState") and not has_call(s0, "iter_mut") and not has_call(s0, "::find"):
+                srcs.append(s0)
+    cutters = sorted({mir.short(c[1]) for s0 in srcs for c in mir.calls_in(s0) if any(c[1].endswith(k) for k in (
+        "Iterator::skip", "Iterator::take", "Iterator::step_by", "Iterator::skip_while", "Iterator::take_while", "Iterator::filter",
+        "Iterator::rev")) or ("index" in c[1].lower() and len(c[2]) > 1 and isinstance(c[2][1], tuple) and c[2][1][0] == "agg"
+                              and "Range" in c[2][1][1])})
+    if srcs and cutters:
+        res.violation(rid, "all-items", "a closure pass does not look at every item of the state (%s on self.items): lookaheads that reach an "
+                      "item already in the state are not handed down to its closure items" % ", ".join(cutters), f.loc())
+    elif srcs:
+        res.ok(rid, "all-items", f.loc(), "for item in &self.items")
     # region: body of the item loop = the loop containing the call to firsts
     fb = [b for b, t in f.calls() if callee(t).endswith("table::firsts")]
     if not fb:
@@ -561,6 +579,30 @@ def r9_propagation(F, res, rid):
                           "propagated to its successors (all items of the source state must be searched)" % adapt, where)
             break
         okd = True
+    # every growth asks for another round: on each path where the target's lookahead set was extended and found larger, the
+    # fixpoint flag is raised, whatever else holds on that path
+    grew_paths = unflagged = 0
+    for p in mpaths:
+        i_ex = [i for i, e in enumerate(p.events) if e[0] == "call" and e[1].endswith("::extend")]
+        if not i_ex:
+            continue
+        grow = [(i, e) for i, e in enumerate(p.events) if e[0] == "cond" and i > i_ex[0] and e[1][0] == "bin" and e[1][1] in ("Gt", "Lt", "Ne")
+                and has_call(e[1], "::len") and has_field(e[1], "follow", "LRItem")]
+        if not grow:
+            continue
+        gi, ge = grow[0]
+        grew = (ge[2] == 1)
+        if not grew:
+            continue
+        grew_paths += 1
+        raised = any(e[0] in ("set", "store") and e[2] == ("const", 1) for e in p.events[gi:])
+        if not raised:
+            unflagged += 1
+    if grew_paths and unflagged:
+        res.violation(rid, "growth-raises-flag", "%d of %d paths on which a target item's lookaheads grew do not ask for another propagation "
+                      "round: the fixpoint can stop with lookaheads that were never passed on" % (unflagged, grew_paths), where)
+    elif grew_paths:
+        res.ok(rid, "growth-raises-flag", where, "%d growth path(s), all raise the flag" % grew_paths)
     if okd:
         res.ok(rid, "direction", where, "extend(target kernel item follow, source item follow)")
         res.ok(rid, "source-items", where, "source searched in state.items (all items)")
